@@ -1,7 +1,7 @@
 (* C01 - loop liveness: the theorems about Model/LoopCore.v, on top of the
    invariant of Proofs/LoopCoreInv.v. *)
 From UV Require Import Lib.Base Model.Heap Model.Timer Model.LoopCore
-  Proofs.HeapProofs Proofs.TimerProofs Proofs.LoopCoreInv.
+  Proofs.HeapProofs Proofs.TimerProofs Proofs.LoopCoreInv Proofs.UvRunAlt.
 Local Open Scope Z_scope.
 
 (* ------------------------------------------------------------------ *)
@@ -323,7 +323,7 @@ Qed.
 
 Lemma tr_uv_run fuel s beh mode : LInvG s [] [] -> tr_ok (snd (uv_run fuel s beh mode)).
 Proof.
-  intros Hinv. unfold uv_run.
+  intros Hinv. rewrite uv_run_alt_eq. unfold uv_run_alt.
   set (s0 := if loop_alive s then s else update_time s).
   assert (I0 : LInvG s0 [] []) by (subst s0; destruct (loop_alive s); [|apply LInvG_update_time]; exact Hinv).
   assert (I1 : LInvG (fst (if Nat.eqb mode 0 && loop_alive s && negb (stop_flag s0)
@@ -334,8 +334,10 @@ Proof.
     split; [apply LInvG_l_run_timers|eapply tr_l_run_timers]; apply LInvG_update_time; exact I0. }
   destruct (if Nat.eqb mode 0 && loop_alive s && negb (stop_flag s0) then _ else _) as [s1 e0].
   cbn [fst snd] in I1. destruct I1 as [I1 T1].
+  set (rr := if Nat.eqb mode 0 && loop_alive s && negb (stop_flag s0) && stop_flag s1
+             then loop_alive s1 else loop_alive s).
   assert (T2 : tr_ok (snd (fst (if loop_alive s && negb (stop_flag s1)
-                                then run_loop fuel s1 beh mode else (s1, [], loop_alive s))))).
+                                then run_loop fuel s1 beh mode else (s1, [], rr))))).
   { destruct (loop_alive s && negb (stop_flag s1)); [apply tr_run_loop; exact I1|constructor]. }
   destruct (if loop_alive s && negb (stop_flag s1) then _ else _) as [[s2 e1] r'].
   cbn [fst snd] in *. apply tr_ok_app; [exact T1|]. apply tr_ok_app; [exact T2|]. repeat constructor.
@@ -492,30 +494,30 @@ Proof.
   specialize (IH s1 beh mode). destruct (run_loop f s1 beh mode) as [[s2 e2] r2]. exact IH.
 Qed.
 
-(* The only way to a stale result: UV_RUN_DEFAULT entered with work
-   outstanding and the stop flag clear, and the timer pass that precedes the
-   first iteration sets the stop flag. *)
-Definition stale_case (s : lstate) (beh : nat -> list lop) (mode : nat) : bool :=
-  Nat.eqb mode 0 && loop_alive s && negb (stop_flag s) &&
-  stop_flag (fst (l_run_timers (update_time s) beh)).
-
+(* The result of uv_run is uv__loop_alive of the state it returns in - on
+   every path, including the one where the timer pass that precedes the first
+   iteration of UV_RUN_DEFAULT sets the stop flag (there the liveness is
+   sampled again: the "fix:" commit for known finding 2). *)
 Theorem run_result fuel s beh mode :
-  stale_case s beh mode = false ->
   exists e, snd (uv_run fuel s beh mode) = e ++ [VRun (loop_alive (fst (uv_run fuel s beh mode)))].
 Proof.
-  unfold stale_case, uv_run. intros Hst.
+  rewrite uv_run_alt_eq. unfold uv_run_alt.
   destruct (loop_alive s) eqn:Ea.
   - (* alive at entry *)
     rewrite andb_true_r in *.
     destruct (Nat.eqb mode 0 && negb (stop_flag s)) eqn:Em.
-    + cbn [andb] in Hst.
-      destruct (l_run_timers (update_time s) beh) as [s1 e0]. cbn [fst] in Hst.
-      rewrite Hst. cbn [negb andb].
-      pose proof (run_loop_result fuel s1 beh mode) as Hr.
-      destruct (run_loop fuel s1 beh mode) as [[s2 e1] r']. cbn [fst snd] in *.
-      exists (e0 ++ e1). rewrite app_assoc. subst r'. reflexivity.
-    + destruct (stop_flag s) eqn:Es.
-      * cbn [negb andb fst snd]. exists []. cbn. unfold loop_alive in *. cbn. rewrite Ea. reflexivity.
+    + destruct (l_run_timers (update_time s) beh) as [s1 e0].
+      destruct (stop_flag s1) eqn:Es1.
+      * cbn [negb andb fst snd]. exists e0.
+        change (loop_alive (set_stop s1 false)) with (loop_alive s1). reflexivity.
+      * cbn [negb andb].
+        pose proof (run_loop_result fuel s1 beh mode) as Hr.
+        destruct (run_loop fuel s1 beh mode) as [[s2 e1] r']. cbn [fst snd] in *.
+        exists (e0 ++ e1). rewrite app_assoc. subst r'. reflexivity.
+    + cbn [andb].
+      destruct (stop_flag s) eqn:Es.
+      * cbn [negb andb fst snd]. exists []. cbn.
+        change (loop_alive (set_stop s false)) with (loop_alive s). rewrite Ea. reflexivity.
       * cbn [negb andb].
         pose proof (run_loop_result fuel s beh mode) as Hr.
         destruct (run_loop fuel s beh mode) as [[s2 e1] r']. cbn [fst snd] in *.
@@ -524,30 +526,14 @@ Proof.
     change (loop_alive (set_stop (update_time s) false)) with (loop_alive s). rewrite Ea. reflexivity.
 Qed.
 
-Theorem run_result_stale fuel s beh mode :
-  stale_case s beh mode = true ->
-  mode = O /\ loop_alive s = true /\ stop_flag s = false /\
-  fst (uv_run fuel s beh mode) = set_stop (fst (l_run_timers (update_time s) beh)) false /\
-  exists e, snd (uv_run fuel s beh mode) = e ++ [VRun true].
-Proof.
-  unfold stale_case, uv_run. intros Hst.
-  apply andb_prop in Hst. destruct Hst as [Hst H4]. apply andb_prop in Hst. destruct Hst as [Hst H3].
-  apply andb_prop in Hst. destruct Hst as [H1 H2]. apply Nat.eqb_eq in H1. apply negb_true_iff in H3.
-  rewrite H2, H3. subst mode. cbn [Nat.eqb andb negb].
-  destruct (l_run_timers (update_time s) beh) as [s1 e0]. cbn [fst] in *.
-  rewrite H4. cbn [negb andb fst snd]. repeat split; auto.
-  exists e0. reflexivity.
-Qed.
-
 (* for reachable states the result is the outstanding-work predicate of the
    state uv_run returns in *)
 Theorem run_result_outstanding t0 m pre beh mode :
   let s := fst (lrun (linit t0 m) pre beh) in
-  stale_case s beh mode = false ->
   exists e r, snd (uv_run run_fuel s beh mode) = e ++ [VRun r] /\
               (r = true <-> outstanding (fst (uv_run run_fuel s beh mode))).
 Proof.
-  cbv zeta. intros Hst. destruct (run_result run_fuel _ beh mode Hst) as (e & He).
+  cbv zeta. destruct (run_result run_fuel (fst (lrun (linit t0 m) pre beh)) beh mode) as (e & He).
   exists e, (loop_alive (fst (uv_run run_fuel (fst (lrun (linit t0 m) pre beh)) beh mode))).
   split; [exact He|]. apply alive_iff. apply LInv_uv_run. apply LInv_reachable.
 Qed.
@@ -564,11 +550,13 @@ Proof.
   destruct (lrun s2 post beh) as [s3 e3]. reflexivity.
 Qed.
 
-(* known finding 2 *)
-Theorem run_default_stale_result_refuted :
+(* the failing input of (former) known finding 2, on the repaired code: one due
+   non-repeating timer whose callback calls uv_stop(); uv_run(DEFAULT) now
+   returns 0 with nothing outstanding *)
+Example run_default_stop_in_initial_timer_pass :
   let os := [LInit KTimer true; LTStart 0 (Some 1%nat) 0 0; LRun 0] in
   let beh := fun _ : nat => [LStopLoop] in
-  exists e, snd (lrun (linit 0 false) os beh) = e ++ [VRun true] /\
+  exists e, snd (lrun (linit 0 false) os beh) = e ++ [VRun false] /\
             loop_alive (fst (lrun (linit 0 false) os beh)) = false /\
             nact (fst (lrun (linit 0 false) os beh)) = 0 /\
             nreq (fst (lrun (linit 0 false) os beh)) = 0 /\
@@ -628,12 +616,14 @@ Definition uv_runX (fuel : nat) (s : lstate) (beh : nat -> list lop) (mode : nat
     if Nat.eqb mode 0 && r && negb (stop_flag s0)
     then l_run_timers (update_time s0) beh else (s0, []) in
   let '(s2, e1, r', x) :=
-    if r && negb (stop_flag s1) then run_loopX fuel s1 beh mode else (s1, [], r, false) in
+    if r && negb (stop_flag s1) then run_loopX fuel s1 beh mode
+    else (s1, [], (if Nat.eqb mode 0 && r && negb (stop_flag s0) && stop_flag s1
+                   then loop_alive s1 else r), false) in
   ((set_stop s2 false, e0 ++ e1 ++ [VRun r']), (r', stop_flag s2, x)).
 
 Lemma uv_runX_agrees fuel s beh mode : fst (uv_runX fuel s beh mode) = uv_run fuel s beh mode.
 Proof.
-  unfold uv_runX, uv_run.
+  rewrite uv_run_alt_eq. unfold uv_runX, uv_run_alt.
   destruct (if Nat.eqb mode 0 && loop_alive s && negb _ then _ else _) as [s1 e0].
   destruct (loop_alive s && negb (stop_flag s1)).
   - pose proof (run_loopX_agrees fuel s1 beh mode) as H.
@@ -656,8 +646,9 @@ Proof.
     intros Hr. destruct x; [right; reflexivity|left].
     destruct (H2 eq_refl) as [H3|H3]; [congruence|exact H3].
   - cbn [fst] in Hag. rewrite <- Hag. cbn [snd].
-    split; [exists e0; reflexivity|]. intros Hr. left. rewrite Hr in Ec.
-    cbn [andb] in Ec. apply negb_false_iff in Ec. exact Ec.
+    split; [exists e0; reflexivity|]. intros Hr. left.
+    destruct (stop_flag s1) eqn:Es1; [reflexivity|].
+    rewrite andb_false_r in Hr. rewrite Hr in Ec. cbn in Ec. discriminate Ec.
 Qed.
 
 (* ------------------------------------------------------------------ *)
